@@ -82,8 +82,8 @@ P.update({
 })
 
 P.update({
-  'C12': (True, 'Admission.tla, Boot.tla',
-          'The admission rules are a decision table in Admission.tla (blacklist hit, non-empty whitelist miss, NaN, timestamp -1 -> now, rounding down to MIN_TIMESTAMP_RESOLUTION, list-file semantics with comment / blank / invalid lines, search not match); thousands of cases - list files written to disk and loaded by the real WhiteList/BlackList objects, names that hit and narrowly miss, values incl. NaN/inf, timestamps incl. -1, fractional and negative, resolutions 0/1/10/60 - are sent through the real line, UDP and pickle listeners, and TLC evaluates the table against the recorded outcome (admitted?, timestamp, name/value unchanged, the two counters) for every case.',
+  'C12': (True, 'Admission.tla, Reload.tla, Boot.tla',
+          'The admission rules are a decision table in Admission.tla (blacklist hit, non-empty whitelist miss, NaN, timestamp -1 -> now, rounding down to MIN_TIMESTAMP_RESOLUTION, list-file semantics with comment / blank / invalid lines, search not match); thousands of cases - list files written to disk and loaded by the real WhiteList/BlackList objects, names that hit and narrowly miss, values incl. NaN/inf, timestamps incl. -1, fractional and negative, resolutions 0/1/10/60 - are sent through the real line, UDP and pickle listeners, and TLC evaluates the table against the recorded outcome (admitted?, timestamp, name/value unchanged, the two counters) for every case.  Reload.tla is the periodic re-read of the list file (rewrites, removal, restore with a preserved modification time, a failing getmtime()): TLC proves that after a tick the list in force is the file (Fresh, FaultKeeps), and TLC-simulated histories are replayed on a real RegexList with its own LoopingCall on a private clock, the list in force compared after every action.',
           'regular-expression matching is restricted to a literal grammar that the specification can decide (value oracle); protocols.time is a fixed virtual clock',
           'explicit TLA+ decision table evaluated by TLC on recorded executions of the real listeners (oracle evaluation)'),
 })
@@ -117,8 +117,8 @@ P.update({
 })
 
 P.update({
-  'C16': (True, 'Rules.tla',
-          'Rules.tla holds RelayRulesRouter.getDestinations as the code iterates (first match, continue chain, default rule last, filtered by the configured set), its closed form, and the aggregation-rule pattern language; TLC proves ClosedForm and OnlyConfigured over every small rule table; generated relay-rules.conf files (shuffled default section, default = false decoys, continue spellings, destination subsets) are loaded by the real RelayRulesRouter with destinations added/removed through the router API, generated aggregation-rules files by the real AggregatedConsistentHashingRouter, and TLC compares every recorded routing decision with the specification (for aggregated routing: the union of the hash destinations of the aggregate names the rule language gives).',
+  'C16': (True, 'Rules.tla, Reload.tla',
+          'Rules.tla holds RelayRulesRouter.getDestinations as the code iterates (first match, continue chain, default rule last, filtered by the configured set), its closed form, and the aggregation-rule pattern language; TLC proves ClosedForm and OnlyConfigured over every small rule table; generated relay-rules.conf files (shuffled default section, default = false decoys, continue spellings, destination subsets) are loaded by the real RelayRulesRouter with destinations added/removed through the router API, generated aggregation-rules files by the real AggregatedConsistentHashingRouter, and TLC compares every recorded routing decision with the specification (for aggregated routing: the union of the hash destinations of the aggregate names the rule language gives).  Reload.tla (the periodic re-read of the rules file under rewrites, removal, restore with a preserved modification time and failing ticks) is model-checked and its simulated histories are replayed on a real aggregation RuleManager.',
           'relay-rule regexes restricted to a case-insensitive literal grammar (value oracle); hash destinations of a key come from the real ConsistentHashingRouter (C05/C06)',
           'explicit TLA+ specification of the routing rules, TLC enumeration of small rule tables, oracle evaluation of recorded decisions of the real routers'),
 })
